@@ -15,11 +15,7 @@ func init() {
 // global session id for the pairs this shard owns.
 func forPairs(p *Plan, shard int, f func(id int, it *Item, ea, eb *Entry)) {
 	id := 0
-	// a large plan is judged in chunks (one TLC run each): chunk = [index, count]
-	chunkI, chunkN := 0, 1
-	if c, ok := p.Extra["chunk"].([]any); ok && len(c) == 2 {
-		chunkI, chunkN = int(c[0].(float64)), int(c[1].(float64))
-	}
+	chunkI, chunkN := chunkOf(p)
 	voidE := &Entry{D: codec.Void(), NF: true}
 	for ii := range p.Items {
 		it := &p.Items[ii]
@@ -242,4 +238,12 @@ type editPair struct {
 
 func loadPairs(dir, name string) []editPair {
 	return loadNdjson[editPair](dir, name)
+}
+
+// chunkOf: a large plan is driven and judged in chunks (one TLC run each): extra.chunk = [index, count]
+func chunkOf(p *Plan) (int, int) {
+	if c, ok := p.Extra["chunk"].([]any); ok && len(c) == 2 {
+		return int(c[0].(float64)), int(c[1].(float64))
+	}
+	return 0, 1
 }
